@@ -425,8 +425,12 @@ def gen_case(rng):
                         toks[n] = "10.0.0.0 " + rng.choice(["0.85.255.85", "0.255.85.170", "1.255.255.0"])
                         break
                 text = " ".join(toks)
+            # ports whose *name* depends on platform and software version, given as numbers
+            if rng.random() < 0.12 and ace["sem"]["proto"] in (6, 17) and not ace["sem"]["dport"] and not ace["sem"]["flags"] \
+                    and not ace["sem"]["logs"]:
+                text = text + " eq " + str(rng.choice([135, 15001, 15002, 514, 3949] if ace["sem"]["proto"] == 6 else [521, 514]))
             # version-only / platform-only names
-            if rng.random() < 0.15 and ace["sem"]["proto"] in (6, 17) and not ace["sem"]["dport"]:
+            elif rng.random() < 0.15 and ace["sem"]["proto"] in (6, 17) and not ace["sem"]["dport"]:
                 pname = "tcp" if ace["sem"]["proto"] == 6 else "udp"
                 vocab = grammar.port_vocab(pname, platform, version)
                 cand = [nm for nm in VERSION_NAMES[pname] if nm in vocab]
